@@ -324,8 +324,7 @@ func (r *Resolver) onStrBin(g *Scope, name string, t *parser.Type, v *parser.Con
 	}()
 	switch v.Type {
 	case parser.ConstType_ConstLiteral:
-		raw := strings.ReplaceAll(v.TypedValue.GetLiteral(), "\"", "\\\"")
-		return fmt.Sprintf(`"%s"`, raw), nil
+		return quoteLiteral(v.TypedValue.GetLiteral()), nil
 	case parser.ConstType_ConstIdentifier:
 		s := v.TypedValue.GetIdentifier()
 		if s == "true" || s == "false" {
@@ -339,6 +338,35 @@ func (r *Resolver) onStrBin(g *Scope, name string, t *parser.Type, v *parser.Con
 	default:
 	}
 	return "", errTypeMissMatch(name, t, v)
+}
+
+// quoteLiteral copies an IDL literal into a double quoted go literal. Escape sequences are left to go
+// (docs/string-literals-in-the-IDL.md) except for what go cannot read: a bare double quote is escaped (an
+// escaped one is not escaped again), the escaped single quote of the IDL is a plain one in go, and a raw
+// line break becomes its escape sequence.
+func quoteLiteral(lit string) string {
+	var sb strings.Builder
+	sb.WriteByte('"')
+	for i := 0; i < len(lit); i++ {
+		switch c := lit[i]; {
+		case c == '\\' && i+1 < len(lit):
+			i++
+			if lit[i] != '\'' {
+				sb.WriteByte('\\')
+			}
+			sb.WriteByte(lit[i])
+		case c == '"':
+			sb.WriteString(`\"`)
+		case c == '\n':
+			sb.WriteString(`\n`)
+		case c == '\r':
+			sb.WriteString(`\r`)
+		default:
+			sb.WriteByte(c)
+		}
+	}
+	sb.WriteByte('"')
+	return sb.String()
 }
 
 func (r *Resolver) onEnum(g *Scope, name string, t *parser.Type, v *parser.ConstValue) (string, error) {
